@@ -5,6 +5,7 @@
 // "crash" record naming the behaviour, and the remaining behaviours are still executed.
 #include "skbl_model.hpp"
 
+#include <sys/resource.h>
 #include <sys/wait.h>
 
 using namespace vf;
@@ -122,7 +123,9 @@ int forked(ReplayCtx& ctx, const bj::object& g, const std::string& cfg, std::int
   pid_t pid = fork();
   if (pid < 0) { std::perror("fork"); std::exit(2); }
   if (pid == 0) {
-    alarm(60);
+    // a call that does not return is cut after 5 s of CPU time of this child (independent of machine load)
+    struct rlimit rl{5, 6};
+    setrlimit(RLIMIT_CPU, &rl);
     ReplayStats st;
     st.cfg = cfg;
     run_group<Model>(ctx, g, st, only_k, check_path);
@@ -176,7 +179,7 @@ int main(int argc, char** argv) {
   if (const char* e = std::getenv("VF_NV")) g_nv = std::atoi(e);
   if (const char* e = std::getenv("VF_HEAVY")) g_heavy = std::atoi(e) != 0;
   g_out = ctx.out;
-  for (int s : {SIGSEGV, SIGABRT, SIGFPE, SIGBUS, SIGILL, SIGALRM}) std::signal(s, on_crash);
+  for (int s : {SIGSEGV, SIGABRT, SIGFPE, SIGBUS, SIGILL, SIGXCPU}) std::signal(s, on_crash);
 #ifdef NDEBUG
   const char* suffix = "/ndebug";
 #else
